@@ -13,6 +13,7 @@
 -/
 import LDEval.Proofs.StatusLog
 import LDEval.Proofs.LoggerIrrelevant
+import LDEval.Proofs.AuditLog
 
 namespace LD.C19
 
@@ -332,6 +333,561 @@ example :
 
 end Ex
 
+/-! ## Strengthened statements (theorem audit) -/
+
+/-! ### 7. The exact shape of the log (audit #65, #66, #68)
+
+`ownError env f` is the error — if any — that the evaluation of `f` detects in `f` ITSELF (not in a
+nested prerequisite flag), computed by the stateless specification (`Spec.ownErr`, defined in
+`Proofs/AuditLog.lean`): bad off / target / rule / fallthrough variation index, rollout without
+variations, invalid attribute reference in a clause or a bucket-by, malformed or circular segment,
+prerequisite cycle.  `Cause env f e` (ibid.) is the purely static statement "flag `f` has a defect
+of the kind `e` names" — which field holds what.  An `EvalErr` IS the class and the operands of a
+log line: `EvalErr.logClass` and `Wire.errOperands` are functions of it. -/
+
+/-- The error the evaluation of `f` detects in `f` itself, with the fuel `evaluate` hands out. -/
+def ownError (env : Env) (f : Flag) : Option EvalErr :=
+  Spec.ownErr (segFuel env.store) (flagFuel env.store) env f []
+
+/-- Nested prerequisite results / segment membership as `evaluate` sees them (stateless). -/
+abbrev recS (env : Env) : Spec.FlagRec :=
+  Spec.evalFlag (segFuel env.store) (flagFuel env.store - 1) env
+abbrev segS (env : Env) : Spec.SegRec := Spec.segContains (segFuel env.store) env
+
+theorem ownError_eq (env : Env) (f : Flag) :
+    ownError env f = Spec.ownErrBody (recS env) (segS env) env f [] := rfl
+
+/-- An own error is a real defect of the evaluated flag, of the kind the error names. -/
+theorem ownError_cause {env : Env} {f : Flag} {e : EvalErr} (h : ownError env f = some e) :
+    Cause env f e := Spec.ownErr_cause h
+
+/-- **Shape of the log.**  The log of one `Evaluate` call is: lines written by nested prerequisite
+evaluations — never under the evaluated flag's key, each naming (by its own key) a flag held by the
+store and a real defect of THAT flag of the kind the line's error names — followed by exactly the
+line `⟨f.key, e⟩` of the evaluated flag's own error `e`, if it has one and a logger is configured. -/
+theorem log_shape (env : Env) (f : Flag) (hctx : env.ctx ≠ .invalid) :
+    ∃ nested, (evaluate env f).logs = nested ++ ownLines env f.key (ownError env f) ∧
+      ∀ l ∈ nested, l.flagKey ≠ f.key ∧ LineCause env l := by
+  rw [evaluate_eq_finish env f hctx, finish_logs]
+  obtain ⟨nested, hl, hn⟩ := evalFlag_logs (segFuel env.store) env (flagFuel env.store) f [] {}
+    (Consistent.empty env)
+  refine ⟨nested, ?_, ?_⟩
+  · rw [hl]; simp [ownError]
+  · intro l hl
+    obtain ⟨h1, h2⟩ := hn l hl
+    exact ⟨fun h => h1 (by simp [h]), h2⟩
+
+/-- **Exactly one line for the flag in which the problem was detected.**  The lines of the log that
+carry the evaluated flag's key are exactly: the one line `⟨f.key, e⟩` if `f` has the own error `e`
+and a logger is configured; nothing otherwise. -/
+theorem own_lines_exact (env : Env) (f : Flag) (hctx : env.ctx ≠ .invalid) :
+    (evaluate env f).logs.filter (fun l => l.flagKey == f.key) =
+      ownLines env f.key (ownError env f) := by
+  obtain ⟨nested, hl, hn⟩ := log_shape env f hctx
+  rw [hl, List.filter_append]
+  have h1 : nested.filter (fun l => l.flagKey == f.key) = [] :=
+    List.filter_eq_nil_iff.mpr (fun l hl => by simp [(hn l hl).1])
+  have h2 : (ownLines env f.key (ownError env f)).filter (fun l => l.flagKey == f.key) =
+      ownLines env f.key (ownError env f) :=
+    List.filter_eq_self.mpr (fun l hl => by obtain ⟨_, e, _, rfl⟩ := mem_ownLines hl; simp)
+  rw [h1, h2, List.nil_append]
+
+/-- **No spurious lines.**  Every line of the log was written with a logger configured and either
+is the evaluated flag's own line — then its error is `f`'s own error and names a real defect of `f`
+— or names another flag held by the store and a real defect of that flag.  (A model that logged
+`emptyRollout` for every problem would violate this: `Cause _ g .emptyRollout` requires a rollout
+of `g` without variations.) -/
+theorem log_line_cause (env : Env) (f : Flag) :
+    ∀ l ∈ (evaluate env f).logs, env.opts.logger = true ∧
+      ((l.flagKey = f.key ∧ ownError env f = some l.err ∧ Cause env f l.err) ∨
+        (l.flagKey ≠ f.key ∧ LineCause env l)) := by
+  intro l hl
+  have hlog : env.opts.logger = true := by
+    cases h : env.opts.logger with
+    | true => rfl
+    | false => rw [silent_no_logger env f h] at hl; cases hl
+  refine ⟨hlog, ?_⟩
+  by_cases hctx : env.ctx = .invalid
+  · simp [evaluate, hctx] at hl
+  · obtain ⟨nested, hs, hn⟩ := log_shape env f hctx
+    rw [hs] at hl
+    rcases List.mem_append.mp hl with hl | hl
+    · exact .inr (hn l hl)
+    · obtain ⟨_, e, he, rfl⟩ := mem_ownLines hl
+      exact .inl ⟨rfl, he, ownError_cause he⟩
+
+/-- An own error makes the result MALFORMED_FLAG. -/
+theorem ownError_result {env : Env} {f : Flag} {e : EvalErr} (hctx : env.ctx ≠ .invalid)
+    (h : ownError env f = some e) :
+    (evaluate env f).result.detail.reason.errorKind = some .malformedFlag ∧
+      (evaluate env f).result.detail.reason.kind = .error ∧
+      (evaluate env f).result.detail.index = none := by
+  obtain ⟨ok, hs⟩ := Spec.evalFlag_of_ownErr h
+  obtain ⟨_, _, h3, h4, _, _, _, h8, _⟩ := evaluate_detail_spec env f hctx _ _ hs
+  exact ⟨h8, h4, h3⟩
+
+/-- What "the problem `e` of flag `f` is diagnosed" means for one `Evaluate` call:
+the result is the MALFORMED_FLAG error; among the log lines those under `f`'s key are exactly one
+line `⟨f.key, e⟩` when a logger is configured and none when not; that line is the last of the log;
+with no logger the log is empty. -/
+structure Diagnosed (env : Env) (f : Flag) (e : EvalErr) : Prop where
+  result : (evaluate env f).result.detail.reason.errorKind = some .malformedFlag
+  noValue : (evaluate env f).result.detail.index = none
+  lines : (evaluate env f).logs.filter (fun l => l.flagKey == f.key) =
+    if env.opts.logger then [⟨f.key, e⟩] else []
+  last : env.opts.logger = true → (evaluate env f).logs.getLast? = some ⟨f.key, e⟩
+  silent : env.opts.logger = false → (evaluate env f).logs = []
+
+/-- **Every own error is diagnosed** — the general form of the per-cause theorems below. -/
+theorem diagnosed_of_ownError {env : Env} {f : Flag} {e : EvalErr} (hctx : env.ctx ≠ .invalid)
+    (h : ownError env f = some e) : Diagnosed env f e := by
+  obtain ⟨h1, _, h3⟩ := ownError_result hctx h
+  refine ⟨h1, h3, ?_, ?_, silent_no_logger env f⟩
+  · rw [own_lines_exact env f hctx, h]; rfl
+  · intro hl
+    obtain ⟨nested, hs, _⟩ := log_shape env f hctx
+    rw [hs, h]
+    have : ownLines env f.key (some e) = [⟨f.key, e⟩] := by simp [ownLines, hl]
+    rw [this]
+    exact List.getLast?_concat
+
+/-- Conversely a line under the evaluated flag's key appears only together with the
+MALFORMED_FLAG result (audit #66, for the evaluated flag). -/
+theorem own_line_only_if_error (env : Env) (f : Flag) (l : LogLine)
+    (hl : l ∈ (evaluate env f).logs) (hk : l.flagKey = f.key) :
+    (evaluate env f).result.detail.reason.errorKind = some .malformedFlag ∧
+      (evaluate env f).logs.getLast? = some l := by
+  by_cases hctx : env.ctx = .invalid
+  · simp [evaluate, hctx] at hl
+  · obtain ⟨hlog, h⟩ := log_line_cause env f l hl
+    rcases h with ⟨_, he, _⟩ | ⟨hne, _⟩
+    · have hd := diagnosed_of_ownError hctx he
+      refine ⟨hd.result, ?_⟩
+      rw [hd.last hlog]
+      cases l; simp_all
+    · exact (hne hk).elim
+
+/-- **MALFORMED_FLAG, exactly (audit #68).**  When the result is MALFORMED_FLAG and a logger is
+configured, either the evaluated flag has an own error `e` — then the last line is `⟨f.key, e⟩`, it
+names a real defect of `f`, and no other line carries `f`'s key — or it has none, the evaluation
+was aborted by a nested prerequisite flag, and the last line names another stored flag and a real
+defect of that flag. -/
+theorem logged_line_exact (env : Env) (f : Flag) (hl : env.opts.logger = true)
+    (h : (evaluate env f).result.detail.reason.errorKind = some .malformedFlag) :
+    (∃ e, ownError env f = some e ∧ (evaluate env f).logs.getLast? = some ⟨f.key, e⟩ ∧
+        Cause env f e ∧
+        (evaluate env f).logs.filter (fun l => l.flagKey == f.key) = [⟨f.key, e⟩]) ∨
+      (ownError env f = none ∧ ∃ l, (evaluate env f).logs.getLast? = some l ∧
+        l.flagKey ≠ f.key ∧ LineCause env l) := by
+  have hctx : env.ctx ≠ .invalid := by
+    intro hc
+    simp [evaluate, hc, Detail.forError, Reason.error] at h
+  cases ho : ownError env f with
+  | some e =>
+    left
+    have hd := diagnosed_of_ownError hctx ho
+    exact ⟨e, rfl, hd.last hl, ownError_cause ho, by rw [hd.lines, if_pos hl]⟩
+  | none =>
+    right
+    refine ⟨rfl, ?_⟩
+    obtain ⟨l, h1, _⟩ := logged_line env f hl h
+    obtain ⟨nested, hs, hn⟩ := log_shape env f hctx
+    rw [ho, ownLines_none, List.append_nil] at hs
+    refine ⟨l, h1, hn l ?_⟩
+    rw [← hs]
+    exact List.mem_of_getLast? h1
+
+/-! ### 8. Cause by cause: the evaluation yields MALFORMED_FLAG and exactly one line that names the
+cause
+
+Hypotheses are the data defect plus "the evaluation gets there", the latter stated with the
+stateless specification (`recS` / `segS`: what nested prerequisite evaluations and segment tests
+return).  Conclusion: `Diagnosed env f e` with `e` the error that spells out the cause. -/
+
+section causes
+variable {env : Env} {f : Flag}
+
+/-- Off variation out of range, flag off. -/
+theorem diag_off_variation (hctx : env.ctx ≠ .invalid) (hon : f.on = false) {i : Int}
+    (ho : f.offVariation = some i) (hr : OutOfRange f i) :
+    Diagnosed env f (.badVariation i) := by
+  apply diagnosed_of_ownError hctx
+  rw [ownError_eq]
+  unfold Spec.ownErrBody Spec.offErr Spec.varErr
+  simp only [hon, ho, Bool.not_false, if_true]
+  exact if_pos hr
+
+/-- Off variation out of range, served because a prerequisite failed. -/
+theorem diag_off_variation_prereq_failed (hctx : env.ctx ≠ .invalid) (hon : f.on = true)
+    {k : String} (hp : Spec.checkPrereqs (recS env) env f [] = .failed k) {i : Int}
+    (ho : f.offVariation = some i) (hr : OutOfRange f i) :
+    Diagnosed env f (.badVariation i) := by
+  apply diagnosed_of_ownError hctx
+  rw [ownError_eq]
+  unfold Spec.ownErrBody Spec.offErr Spec.varErr
+  simp only [hon, hp, ho, Bool.not_true, Bool.false_eq_true, if_false]
+  exact if_pos hr
+
+/-- Variation of a matching target out of range. -/
+theorem diag_target_variation (hctx : env.ctx ≠ .invalid) (hon : f.on = true)
+    (hp : Spec.checkPrereqs (recS env) env f [] = .ok) {v : Int}
+    (ht : anyTargetMatch env.ctx f = some v) (hr : OutOfRange f v) :
+    Diagnosed env f (.badVariation v) := by
+  apply diagnosed_of_ownError hctx
+  rw [ownError_eq]
+  unfold Spec.ownErrBody Spec.varErr
+  simp only [hon, hp, ht, Bool.not_true, Bool.false_eq_true, if_false]
+  exact if_pos hr
+
+/-- The evaluation reaches the rule loop (flag on, prerequisites satisfied, no target matches). -/
+structure ReachesRules (env : Env) (f : Flag) : Prop where
+  on : f.on = true
+  prereqs : Spec.checkPrereqs (recS env) env f [] = .ok
+  noTarget : anyTargetMatch env.ctx f = none
+
+theorem ownError_of_reachesRules (h : ReachesRules env f) :
+    ownError env f = Spec.rulesErr (segS env) env f f.rules := by
+  rw [ownError_eq]
+  unfold Spec.ownErrBody
+  simp only [h.on, h.prereqs, h.noTarget, Bool.not_true, Bool.false_eq_true, if_false]
+
+theorem rulesErr_skip (seg : Spec.SegRec) (pre rest : List FlagRule)
+    (hpre : ∀ r ∈ pre, Spec.clausesMatch seg env [] r.clauses = .ok false) :
+    Spec.rulesErr seg env f (pre ++ rest) = Spec.rulesErr seg env f rest := by
+  induction pre with
+  | nil => rfl
+  | cons r pre ih =>
+    simp only [List.cons_append, Spec.rulesErr, hpre r (by simp)]
+    exact ih (fun r' hr' => hpre r' (by simp [hr']))
+
+/-- The three selection defects, as facts about `Spec.vrErr`. -/
+theorem vrErr_variation {vr : VariationOrRollout} {i : Int} (hv : vr.variation = some i)
+    (hr : OutOfRange f i) : Spec.vrErr env f vr = some (.badVariation i) := by
+  unfold Spec.vrErr variationOrRollout Spec.varErr
+  simp only [hv]
+  exact if_pos hr
+
+theorem vrErr_emptyRollout {vr : VariationOrRollout} (hv : vr.variation = none)
+    (he : vr.rollout.variations = []) : Spec.vrErr env f vr = some .emptyRollout := by
+  unfold Spec.vrErr variationOrRollout
+  simp [hv, he]
+
+theorem vrErr_bucketBy {vr : VariationOrRollout} (hv : vr.variation = none)
+    (hne : vr.rollout.variations ≠ []) (hexp : vr.rollout.isExperiment = false)
+    (hd : vr.rollout.bucketBy.isDefined = true) (herr : vr.rollout.bucketBy.errOf.isSome = true) :
+    Spec.vrErr env f vr = some (.badAttrRef vr.rollout.bucketBy.raw) := by
+  have hb : computeBucket env.opts.secondaryKey env.ctx vr.rollout.isExperiment vr.rollout.seed
+      vr.rollout.contextKind f.key vr.rollout.bucketBy f.salt =
+        .error (.badAttrRef vr.rollout.bucketBy.raw) := by
+    unfold computeBucket bucketInput
+    simp [hexp, hd, herr]
+  obtain ⟨last, hlast⟩ : ∃ last, vr.rollout.variations.getLast? = some last := by
+    cases h : vr.rollout.variations.getLast? with
+    | none => exact (hne (List.getLast?_eq_none_iff.mp h)).elim
+    | some l => exact ⟨l, rfl⟩
+  unfold Spec.vrErr variationOrRollout
+  simp only [hv, hlast, hb]
+
+/-- **Rule `r` (after rules that do not match) matches and its selection is defective**:
+variation index out of range (`vrErr_variation`), rollout without variations
+(`vrErr_emptyRollout`), invalid bucket-by reference (`vrErr_bucketBy`). -/
+theorem diag_rule (hctx : env.ctx ≠ .invalid) (hreach : ReachesRules env f)
+    {pre post : List FlagRule} {r : FlagRule} (hrules : f.rules = pre ++ r :: post)
+    (hpre : ∀ r' ∈ pre, Spec.clausesMatch (segS env) env [] r'.clauses = .ok false)
+    (hm : Spec.clausesMatch (segS env) env [] r.clauses = .ok true) {e : EvalErr}
+    (hv : Spec.vrErr env f r.vr = some e) : Diagnosed env f e := by
+  apply diagnosed_of_ownError hctx
+  rw [ownError_of_reachesRules hreach, hrules, rulesErr_skip _ _ _ hpre]
+  simp only [Spec.rulesErr, hm]
+  exact hv
+
+/-- **No rule matches and the fallthrough's selection is defective.** -/
+theorem diag_fallthrough (hctx : env.ctx ≠ .invalid) (hreach : ReachesRules env f)
+    (hrules : ∀ r ∈ f.rules, Spec.clausesMatch (segS env) env [] r.clauses = .ok false)
+    {e : EvalErr} (hv : Spec.vrErr env f f.fallthrough = some e) : Diagnosed env f e := by
+  apply diagnosed_of_ownError hctx
+  rw [ownError_of_reachesRules hreach]
+  have := rulesErr_skip (env := env) (f := f) (segS env) f.rules [] hrules
+  rw [List.append_nil] at this
+  rw [this]
+  exact hv
+
+theorem clausesMatch_skip (seg : Spec.SegRec) (chain : List String) (pre rest : List Clause)
+    (hpre : ∀ c ∈ pre, Spec.clauseMatch seg env chain c = .ok true) :
+    Spec.clausesMatch seg env chain (pre ++ rest) = Spec.clausesMatch seg env chain rest := by
+  induction pre with
+  | nil => rfl
+  | cons c pre ih =>
+    simp only [List.cons_append, Spec.clausesMatch, hpre c (by simp)]
+    exact ih (fun c' hc' => hpre c' (by simp [hc']))
+
+/-- **A clause of rule `r` (after rules that do not match and clauses that match) fails with error
+`e`** — `e` is then `emptyAttr` / `badAttrRef` for an attribute reference (`clauseMatch_attr_*`) or
+the malformed / circular segment error for a segment reference. -/
+theorem diag_rule_clause (hctx : env.ctx ≠ .invalid) (hreach : ReachesRules env f)
+    {pre post : List FlagRule} {r : FlagRule} (hrules : f.rules = pre ++ r :: post)
+    (hpre : ∀ r' ∈ pre, Spec.clausesMatch (segS env) env [] r'.clauses = .ok false)
+    {cpre cpost : List Clause} {c : Clause} (hcl : r.clauses = cpre ++ c :: cpost)
+    (hcpre : ∀ c' ∈ cpre, Spec.clauseMatch (segS env) env [] c' = .ok true) {e : EvalErr}
+    (hc : Spec.clauseMatch (segS env) env [] c = .err e) : Diagnosed env f e := by
+  apply diagnosed_of_ownError hctx
+  rw [ownError_of_reachesRules hreach, hrules, rulesErr_skip _ _ _ hpre]
+  have : Spec.clausesMatch (segS env) env [] r.clauses = .err e := by
+    rw [hcl, clausesMatch_skip _ _ _ _ hcpre]
+    simp only [Spec.clausesMatch, hc]
+  simp only [Spec.rulesErr, this]
+
+/-- A clause without attribute reference fails with `emptyAttr` … -/
+theorem clauseMatch_attr_missing (seg : Spec.SegRec) (chain : List String) {c : Clause}
+    (hop : (c.op == "segmentMatch") = false) (hd : c.attr.isDefined = false) :
+    Spec.clauseMatch seg env chain c = .err .emptyAttr := by
+  unfold Spec.clauseMatch clauseMatchNoSeg
+  simp [hop, hd, Res.ofExcept]
+
+/-- … and one with an invalid attribute reference with `badAttrRef` of the reference's text. -/
+theorem clauseMatch_attr_invalid (seg : Spec.SegRec) (chain : List String) {c : Clause}
+    (hop : (c.op == "segmentMatch") = false) (hd : c.attr.isDefined = true)
+    (herr : c.attr.errOf.isSome = true) :
+    Spec.clauseMatch seg env chain c = .err (.badAttrRef c.attr.raw) := by
+  unfold Spec.clauseMatch clauseMatchNoSeg
+  simp [hop, hd, herr, Res.ofExcept]
+
+/-- A segment-match clause whose first referenced segment is found and fails with `e'` fails with
+`e'` (which `Spec.segContains_cause` shows to be that segment's cycle or malformed-segment
+error). -/
+theorem clauseMatch_segment_err {c : Clause} (hop : (c.op == "segmentMatch") = true) {k : String}
+    {rest : List J} (hv : c.values = .str k :: rest) {s : Segment}
+    (hs : env.store.findSegment k = some s) {e : EvalErr} (he : segS env s [] = .err e) :
+    Spec.clauseMatch (segS env) env [] c = .err e := by
+  unfold Spec.clauseMatch
+  simp only [hop, if_true, hv, Spec.segMatchValues, hs, he]
+
+/-- **Prerequisite cycle** closed by one of `f`'s own prerequisites. -/
+theorem diag_prereq_cycle (hctx : env.ctx ≠ .invalid) (hon : f.on = true) {e : EvalErr}
+    (hc : Spec.checkCycle (recS env) env f [] = some e) : Diagnosed env f e := by
+  apply diagnosed_of_ownError hctx
+  rw [ownError_eq]
+  unfold Spec.ownErrBody
+  simp only [hon, Spec.checkCycle_malformed hc, Bool.not_true, Bool.false_eq_true, if_false]
+  exact hc
+
+/-- The simplest cycle: the first prerequisite resolves to a flag carrying `f`'s own key. -/
+theorem diag_prereq_self_cycle (hctx : env.ctx ≠ .invalid) (hon : f.on = true) {p : Prereq}
+    {ps : List Prereq} (hp : f.prerequisites = p :: ps) {pf : Flag}
+    (hf : env.store.findFlag p.key = some pf) (hk : pf.key = f.key) :
+    Diagnosed env f (.circularPrereq f.key) := by
+  apply diag_prereq_cycle hctx hon
+  unfold Spec.checkCycle
+  simp [hp, Spec.prereqCycle, hf, hk]
+
+end causes
+
+/-! ### 9. Non-vacuity of the per-cause theorems (concrete flags against the store of `Ex`) -/
+
+namespace Ex
+
+theorem ctx_valid (b : Bool) : (env b).ctx ≠ .invalid := by intro h; cases h
+
+/-- A clause that matches the context of `Ex` (key `u1`). -/
+def cKey : Clause :=
+  { attr := { raw := "key", single := "key" }, op := "in", values := [.str "u1"] }
+/-- A clause that does not. -/
+def cNo : Clause :=
+  { attr := { raw := "key", single := "key" }, op := "in", values := [.str "zz"] }
+def badRef : Ref := { err := some .extraSlash, raw := "//" }
+
+example : Diagnosed (env true) { base with on := false, offVariation := some 9 } (.badVariation 9) :=
+  diag_off_variation (ctx_valid _) rfl rfl (.inr (by decide))
+
+example : Diagnosed (env true)
+    { base with prerequisites := [⟨"nope", 0⟩], offVariation := some 7 } (.badVariation 7) :=
+  diag_off_variation_prereq_failed (k := "nope") (ctx_valid _) rfl rfl rfl (.inr (by decide))
+
+example : Diagnosed (env true)
+    { base with targets := [{ values := ["u1"], variation := -1 }] } (.badVariation (-1)) :=
+  diag_target_variation (ctx_valid _) rfl rfl rfl (.inl (by decide))
+
+def fRules (r : FlagRule) : Flag := { base with rules := [{ clauses := [cNo] }, r] }
+
+theorem reaches (r : FlagRule) : ReachesRules (env true) (fRules r) := ⟨rfl, rfl, rfl⟩
+
+/-- Second rule matches, its variation index does not exist. -/
+example : Diagnosed (env true) (fRules { clauses := [cKey], vr := { variation := some 2 } })
+    (.badVariation 2) :=
+  diag_rule (ctx_valid _) (reaches _) (pre := [{ clauses := [cNo] }]) (post := []) rfl
+    (by intro r hr; simp at hr; subst hr; rfl) rfl
+    (vrErr_variation rfl (.inr (by decide)))
+
+/-- Second rule matches, its rollout has no variations. -/
+example : Diagnosed (env true) (fRules { clauses := [cKey] }) .emptyRollout :=
+  diag_rule (ctx_valid _) (reaches _) (pre := [{ clauses := [cNo] }]) (post := []) rfl
+    (by intro r hr; simp at hr; subst hr; rfl) rfl (vrErr_emptyRollout rfl rfl)
+
+/-- Second rule matches, its rollout buckets by an invalid attribute reference. -/
+example : Diagnosed (env true)
+    (fRules { clauses := [cKey],
+              vr := { rollout := { variations := [⟨0, 100000, false⟩], bucketBy := badRef } } })
+    (.badAttrRef "//") :=
+  diag_rule (ctx_valid _) (reaches _) (pre := [{ clauses := [cNo] }]) (post := []) rfl
+    (by intro r hr; simp at hr; subst hr; rfl) rfl
+    (vrErr_bucketBy rfl (by simp) rfl rfl rfl)
+
+/-- No rule matches, the fallthrough has neither a variation nor a rollout. -/
+example : Diagnosed (env true) { base with rules := [{ clauses := [cNo] }], fallthrough := {} }
+    .emptyRollout :=
+  diag_fallthrough (ctx_valid _) ⟨rfl, rfl, rfl⟩
+    (by intro r hr; simp at hr; subst hr; rfl) (vrErr_emptyRollout rfl rfl)
+
+/-- Second clause of the second rule has an invalid attribute reference. -/
+example : Diagnosed (env true)
+    (fRules { clauses := [cKey, { attr := badRef, op := "in" }] }) (.badAttrRef "//") :=
+  diag_rule_clause (ctx_valid _) (reaches _) (pre := [{ clauses := [cNo] }]) (post := []) rfl
+    (by intro r hr; simp at hr; subst hr; rfl)
+    (cpre := [cKey]) (cpost := []) (c := { attr := badRef, op := "in" }) rfl
+    (by intro c hc; simp at hc; subst hc; rfl)
+    (clauseMatch_attr_invalid _ _ rfl rfl rfl)
+
+/-- … has no attribute reference at all. -/
+example : Diagnosed (env true) (fRules { clauses := [cKey, { op := "in" }] }) .emptyAttr :=
+  diag_rule_clause (ctx_valid _) (reaches _) (pre := [{ clauses := [cNo] }]) (post := []) rfl
+    (by intro r hr; simp at hr; subst hr; rfl)
+    (cpre := [cKey]) (cpost := []) (c := { op := "in" }) rfl
+    (by intro c hc; simp at hc; subst hc; rfl)
+    (clauseMatch_attr_missing _ _ rfl rfl)
+
+/-- … refers to the segment `A`, which refers to itself. -/
+example : Diagnosed (env true)
+    (fRules { clauses := [cKey, { op := "segmentMatch", values := [.str "A"] }] })
+    (.malformedSegment "A" (.circularSegment "A")) :=
+  diag_rule_clause (ctx_valid _) (reaches _) (pre := [{ clauses := [cNo] }]) (post := []) rfl
+    (by intro r hr; simp at hr; subst hr; rfl)
+    (cpre := [cKey]) (cpost := []) (c := { op := "segmentMatch", values := [.str "A"] }) rfl
+    (by intro c hc; simp at hc; subst hc; rfl)
+    (clauseMatch_segment_err (k := "A") (rest := []) rfl rfl (s := _) rfl rfl)
+
+/-- A flag filed as `c1` whose first prerequisite `c1` resolves to a flag with its own key. -/
+example : Diagnosed (env true) { base with key := "c1", prerequisites := [⟨"c1", 0⟩] }
+    (.circularPrereq "c1") :=
+  diag_prereq_self_cycle (ctx_valid _) rfl (p := ⟨"c1", 0⟩) (ps := []) rfl (pf := _) rfl rfl
+
+/-- The second alternative of `logged_line_exact`: the cycle is closed two levels down, the
+evaluated flag has no own error, the line names `c2`. -/
+example : ownError (env true) { base with prerequisites := [⟨"c1", 0⟩] } = none := by decide
+
+/-- `Diagnosed` without a logger: same result, no line. -/
+example : Diagnosed (env false) { base with on := false, offVariation := some 9 } (.badVariation 9) :=
+  diag_off_variation (ctx_valid _) rfl rfl (.inr (by decide))
+
+end Ex
+
+/-! ### 10. The frame-level form, and what each error class says about the data -/
+
+/-- `log_shape` for an arbitrary frame (any fuel, chain and incoming state with a provider-consistent
+cache): the frame evaluating `f` appends the lines of its nested frames — none under `f`'s key or a
+key of the chain — and then exactly the line of its own error.  So EVERY frame, nested ones
+included, writes exactly one line under its own key when it detects a problem in its own flag and
+none otherwise. -/
+theorem frame_log_shape (sf n : Nat) (env : Env) (f : Flag) (chain : List String) (st : St)
+    (h : Consistent env st) :
+    ∃ nested, (evalFlag sf n env f chain st).2.logs =
+        st.logs ++ nested ++ ownLines env f.key (Spec.ownErr sf n env f chain) ∧
+      ∀ l ∈ nested, l.flagKey ∉ chain ++ [f.key] ∧ LineCause env l :=
+  evalFlag_logs sf env n f chain st h
+
+/-- A `rollout` line: the flag really has a fallthrough or a rule with neither a variation nor
+rollout variations. -/
+theorem cause_emptyRollout {env : Env} {f : Flag} (h : Cause env f .emptyRollout) :
+    (f.fallthrough.variation = none ∧ f.fallthrough.rollout.variations = []) ∨
+      ∃ r ∈ f.rules, r.vr.variation = none ∧ r.vr.rollout.variations = [] := by
+  cases h with
+  | fallthrough h => cases h with | emptyRollout h1 h2 => exact .inl ⟨h1, h2⟩
+  | rule hr h => cases h with | emptyRollout h1 h2 => exact .inr ⟨_, hr, h1, h2⟩
+  | clause _ _ h => cases h with | segment _ _ _ hs => cases hs
+
+/-- A `variation` line with operand `i`: index `i` does not exist in the flag and is its off
+variation, the variation of one of its targets, or a (fixed or rollout) variation of its
+fallthrough or of one of its rules. -/
+theorem cause_badVariation {env : Env} {f : Flag} {i : Int} (h : Cause env f (.badVariation i)) :
+    OutOfRange f i ∧
+      (f.offVariation = some i ∨ (∃ t, (t ∈ f.targets ∨ t ∈ f.contextTargets) ∧ t.variation = i) ∨
+        ∃ vr, (vr = f.fallthrough ∨ ∃ r ∈ f.rules, vr = r.vr) ∧
+          (vr.variation = some i ∨ ∃ wv ∈ vr.rollout.variations, wv.variation = i)) := by
+  cases h with
+  | offVariation h1 h2 => exact ⟨h2, .inl h1⟩
+  | target h1 h2 => exact ⟨h2, .inr (.inl ⟨_, h1, rfl⟩)⟩
+  | fallthrough h =>
+    cases h with
+    | variation h1 h2 => exact ⟨h2, .inr (.inr ⟨_, .inl rfl, .inl h1⟩)⟩
+    | rolloutVariation h1 h2 h3 => exact ⟨h3, .inr (.inr ⟨_, .inl rfl, .inr ⟨_, h2, rfl⟩⟩)⟩
+  | rule hr h =>
+    cases h with
+    | variation h1 h2 => exact ⟨h2, .inr (.inr ⟨_, .inr ⟨_, hr, rfl⟩, .inl h1⟩)⟩
+    | rolloutVariation h1 h2 h3 =>
+      exact ⟨h3, .inr (.inr ⟨_, .inr ⟨_, hr, rfl⟩, .inr ⟨_, h2, rfl⟩⟩)⟩
+  | clause _ _ h => cases h with | segment _ _ _ hs => cases hs
+
+/-- A `prereq-cycle` line with operand `k`: one of the flag's prerequisites resolves to a flag
+whose own key is `k`. -/
+theorem cause_circularPrereq {env : Env} {f : Flag} {k : String}
+    (h : Cause env f (.circularPrereq k)) :
+    ∃ p ∈ f.prerequisites, ∃ pf, env.store.findFlag p.key = some pf ∧ pf.key = k := by
+  cases h with
+  | fallthrough h => cases h
+  | rule _ h => cases h
+  | clause _ _ h => cases h with | segment _ _ _ hs => cases hs
+  | prereqCycle hp hf => exact ⟨_, hp, _, hf, rfl⟩
+
+/-- An `attr-missing` line at flag level (not wrapped in a segment): one of the flag's rules has a
+non-segment clause without attribute reference. -/
+theorem cause_emptyAttr {env : Env} {f : Flag} (h : Cause env f .emptyAttr) :
+    ∃ r ∈ f.rules, ∃ c ∈ r.clauses, (c.op == "segmentMatch") = false ∧ c.attr.isDefined = false := by
+  cases h with
+  | fallthrough h => cases h
+  | rule _ h => cases h
+  | clause hr hc h =>
+    cases h with
+    | emptyAttr h1 h2 => exact ⟨_, hr, _, hc, h1, h2⟩
+    | segment _ _ _ hs => cases hs
+
+/-- A line whose error is wrapped `malformedSegment k e'`: one of the flag's rules has a
+segment-match clause naming a stored segment whose own key is `k`, and `e'` is a defect of that
+segment (a clause of one of its rules, a bucket-by, or a nested segment). -/
+theorem cause_malformedSegment {env : Env} {f : Flag} {k : String} {e' : EvalErr}
+    (h : Cause env f (.malformedSegment k e')) :
+    ∃ r ∈ f.rules, ∃ c ∈ r.clauses, (c.op == "segmentMatch") = true ∧ ∃ k' s, J.str k' ∈ c.values ∧
+      env.store.findSegment k' = some s ∧ s.key = k ∧ SegCause env [] s (.malformedSegment k e') := by
+  cases h with
+  | fallthrough h => cases h
+  | rule _ h => cases h
+  | clause hr hc h =>
+    cases h with
+    | segment h1 h2 h3 hs =>
+      refine ⟨_, hr, _, hc, h1, _, _, h2, h3, ?_, hs⟩
+      cases hs <;> rfl
+
+/-- The hypotheses of the `cause_*` lemmas are satisfiable (and are what `log_line_cause` delivers
+for the lines of the examples above). -/
+example : Cause (Ex.env true) { Ex.base with fallthrough := {} } .emptyRollout :=
+  .fallthrough (.emptyRollout rfl rfl)
+example : Cause (Ex.env true) { Ex.base with on := false, offVariation := some 9 } (.badVariation 9) :=
+  .offVariation rfl (.inr (by decide))
+example : Cause (Ex.env true) { Ex.base with key := "c1", prerequisites := [⟨"c1", 0⟩] }
+    (.circularPrereq "c1") :=
+  ownError_cause (by decide)
+example : Cause (Ex.env true) (Ex.fRules { clauses := [Ex.cKey, { op := "in" }] }) .emptyAttr :=
+  ownError_cause (by decide)
+
+/-- Audit #66 proposed, for lines of nested flags, "there is a prerequisite event for that flag
+whose result is an error, or the evaluation was aborted".  That needs an event recorder: with
+`recorder := false` a nested flag with a bad off variation is logged, the evaluated flag goes on to
+PREREQUISITE_FAILED, and there is no event at all.  (`log_line_cause` does not depend on the
+recorder: it ties the line to the defect of the stored flag instead.) -/
+example :
+    let o := evaluate { Ex.env true with opts := { logger := true, recorder := false } }
+      { Ex.base with prerequisites := [⟨"g", 0⟩], offVariation := some 1 }
+    o.logs = [⟨"g", .badVariation 9⟩] ∧ o.events.length = 0 ∧
+      o.result.detail.reason.kind = .prereqFailed := by decide
+
 end LD.C19
 
 #print axioms LD.C19.logged_flag_line
@@ -348,3 +904,29 @@ end LD.C19
 #print axioms LD.C19.silent_own_path
 #print axioms LD.C19.silent_when_clean
 #print axioms LD.C19.segments_never_log
+#print axioms LD.C19.log_shape
+#print axioms LD.C19.own_lines_exact
+#print axioms LD.C19.log_line_cause
+#print axioms LD.C19.diagnosed_of_ownError
+#print axioms LD.C19.own_line_only_if_error
+#print axioms LD.C19.logged_line_exact
+#print axioms LD.C19.diag_off_variation
+#print axioms LD.C19.diag_off_variation_prereq_failed
+#print axioms LD.C19.diag_target_variation
+#print axioms LD.C19.diag_rule
+#print axioms LD.C19.diag_fallthrough
+#print axioms LD.C19.diag_rule_clause
+#print axioms LD.C19.vrErr_variation
+#print axioms LD.C19.vrErr_emptyRollout
+#print axioms LD.C19.vrErr_bucketBy
+#print axioms LD.C19.clauseMatch_attr_missing
+#print axioms LD.C19.clauseMatch_attr_invalid
+#print axioms LD.C19.clauseMatch_segment_err
+#print axioms LD.C19.diag_prereq_cycle
+#print axioms LD.C19.diag_prereq_self_cycle
+#print axioms LD.C19.frame_log_shape
+#print axioms LD.C19.cause_emptyRollout
+#print axioms LD.C19.cause_badVariation
+#print axioms LD.C19.cause_circularPrereq
+#print axioms LD.C19.cause_emptyAttr
+#print axioms LD.C19.cause_malformedSegment
